@@ -1,12 +1,11 @@
 (* Unfolding equations of the expression-level interpreter functions, produced mechanically from the
-   text of EvalRestoreSem.v; each is proved by computation, so it cannot drift from the definition.
-   Used by the parametricity proof (EvalRestoreParam.v). *)
+   text of EvalRestoreSem.v (props/state_common.py: gen_eqs); each is proved by computation.  Used by the
+   parametricity proof (EvalRestoreParam.v). *)
 From HyV Require Export State.EvalRestoreSem.
 
 Section Eqs.
 Variables (P : prog) (Orc : oracle) (A : Type) (timeout : A) (stuck : string -> A).
 Variable blk : env -> list stmt -> st -> (env -> st -> A) -> (val -> env -> st -> A) -> (val -> env -> st -> A) -> A.
-
 Notation eval_ := (eval P Orc A timeout stuck blk).
 Notation evals_ := (evals P Orc A timeout stuck blk).
 Notation evalkw_ := (evalkw P Orc A timeout stuck blk).
